@@ -3,11 +3,15 @@ from pyvc.registry import contract
 
 TH = ["types", "events", "values"]
 
+# the function cache maps id(code) to the pair (code, function or None): every entry's function, if any, has exactly the entry's code
+_E = "lookup(self.cache, i)"
+_CACHE_WF = "forall_v(lambda i: implies(has(self.cache, i), %s is not None and len(%s) == 2 and (nth(%s, 1) is None or code_of(nth(%s, 1)) is nth(%s, 0))))" % (_E, _E, _E, _E, _E)
+
 contract("monkeytype.tracing:CallTracer._get_func", props=["C02", "C18"], theories=TH, pure=False, modifies=["cache"],
          params={"self": "Tracer", "frame": "Frame"}, result="Opt[Func]",
-         requires={"cache-wf": "forall(self.cache, lambda c: lookup(self.cache, c) is None or code_of(lookup(self.cache, c)) is c)"},
+         requires={"cache-wf": _CACHE_WF},
          ensures={"post:code": "implies(result is not None, code_of(result) is code_of(frame))",
-                  "post:cache-wf": "forall(self.cache, lambda c: lookup(self.cache, c) is None or code_of(lookup(self.cache, c)) is c)",
+                  "post:cache-wf": _CACHE_WF,
                   "frame:traces": "unchanged('traces')"},
          raises={"Exception": None})
 
@@ -23,7 +27,7 @@ contract("monkeytype.tracing:CallTracer.handle_call", props=["C02", "C18", "C06"
          modifies=["traces", "cache", "func", "arg_types", "return_type", "yield_type"],
          params={"self": "Tracer", "frame": "Frame"}, result="none",
          requires={"k-int": "self.max_typed_dict_size is not None", "rate": "self.sample_rate is None or self.sample_rate >= 0", "locals-wf": "forall_v(lambda n: implies(has(locals_of(frame), n), wf_val(lookup(locals_of(frame), n))))",
-                   "cache-wf": "forall(self.cache, lambda c: lookup(self.cache, c) is None or code_of(lookup(self.cache, c)) is c)"},
+                   "cache-wf": _CACHE_WF},
          ensures={
              # C18: a call that was not sampled leaves no trace and no residue
              "post:unsampled": "implies(not %s, self.traces is old(self.traces))" % _SAMPLED,
@@ -38,7 +42,7 @@ contract("monkeytype.tracing:CallTracer.handle_call", props=["C02", "C18", "C06"
              "post:arg-names": "implies(self.traces is not old(self.traces), forall(%s.arg_types, lambda n: has(%s, n) and has(locals_of(frame), n)))" % (_NEW, _ARGN),
              "frame:effects": "effects() is old(effects())",
              "frame:existing": "forall_v(lambda t: implies(preexisting(t), t.yield_type is old(t.yield_type) and t.return_type is old(t.return_type)))",
-             "post:cache-wf": "forall(self.cache, lambda c: lookup(self.cache, c) is None or code_of(lookup(self.cache, c)) is c)",
+             "post:cache-wf": _CACHE_WF,
          },
          raises={"Exception": None},
          ensures_exc={"exc:traces": "self.traces is old(self.traces)", "exc:effects": "effects() is old(effects())",
@@ -77,6 +81,8 @@ contract("monkeytype.tracing:CallTracer.handle_return", props=["C02", "C18", "C0
          params={"self": "Tracer", "frame": "Frame", "arg": "Val"}, result="none",
          requires=_RET_REQ, ensures=_RET_POSTS,
          ensures_exc={"exc:contained-state": "self.traces is old(self.traces) or self.traces is dict_del_(old(self.traces), frame)",
+                      # C02 "afterwards the tracer keeps no per-call state", also when the logger fails on the finished call
+                      "exc:finished-dropped": "implies(log_attempted(), self.traces is dict_del_(old(self.traces), frame))",
                       "exc:no-log": "effects() is old(effects())"},
          raises={"Exception": None})
 
@@ -113,11 +119,16 @@ contract("monkeytype.tracing:CallTracer.__call__", props=["C02", "C03", "C17", "
                    "unwind-arg": "implies(cause(frame) is CAUSE_unwind, arg is None)", "arg-wf": "wf_val(arg)", "locals-wf": "forall_v(lambda n: implies(has(locals_of(frame), n), wf_val(lookup(locals_of(frame), n))))",
                    "rate": "self.sample_rate is None or self.sample_rate >= 0",
                    "trace-wf": "implies(has(self.traces, frame), lookup(self.traces, frame) is not None and lookup(self.traces, frame).return_type is None)",
-                   "cache-wf": "forall(self.cache, lambda c: lookup(self.cache, c) is None or code_of(lookup(self.cache, c)) is c)"},
+                   "cache-wf": _CACHE_WF},
          ensures=_CALL_POSTS)
 
-contract("monkeytype.tracing:trace_calls", props=["C03", "C06"], theories=TH, pure=True, hide="*",
+contract("monkeytype.tracing:trace_calls", props=["C03", "C06", "C18", "C17"], theories=TH, pure=True, hide="*",
          params={"logger": "Logger", "max_typed_dict_size": "Opt[int]", "code_filter": "Opt[Filter]", "sample_rate": "Opt[int]"}, result="none",
+         # C18 / C17 / C06: while the block runs, the installed profiler is a fresh tracer carrying exactly the given logger, size limit, filter and sampling rate
+         at_yield={"body:installed": "profiler() is not None and not preexisting(profiler())",
+                   "body:logger": "tag_(profiler(), 'Tracer').logger is logger", "body:rate": "tag_(profiler(), 'Tracer').sample_rate is sample_rate",
+                   "body:filter": "tag_(profiler(), 'Tracer').should_trace is code_filter", "body:k": "tag_(profiler(), 'Tracer').max_typed_dict_size is max_typed_dict_size",
+                   "body:no-state": "len(tag_(profiler(), 'Tracer').traces) == 0"},
          ensures={"post:restore": "profiler() is old(profiler())",
                   "post:flush-once": "effects() is append(L_ghost_body_effects, tup('flush', logger))"},
          ensures_exc={"exc:restore": "profiler() is old(profiler())",
